@@ -17,7 +17,8 @@ from loki.expression import Array, ProcedureSymbol
 from loki.ir.expr_visitors import FindLiterals
 from loki.tools import as_tuple, flatten, OrderedSet
 from loki.ir import (
-    Visitor, Transformer, FindVariables, FindInlineCalls, FindTypedSymbols
+    Visitor, Transformer, FindVariables, FindInlineCalls, FindTypedSymbols,
+    MultiConditional, TypeConditional, MaskedStatement
 )
 from loki.subroutine import Subroutine
 from loki.tools.util import CaseInsensitiveDict
@@ -549,6 +550,9 @@ class FindReads(Visitor):
 
     def visit_LeafNode(self, o, **kwargs):  # pylint: disable=unused-argument
         self._register_reads(o.uses_symbols)
+        if isinstance(o, (MultiConditional, TypeConditional, MaskedStatement)):
+            # Compound statements only potentially define their symbols
+            return
         self._register_writes(o.defines_symbols)
 
     def visit_Conditional(self, o, **kwargs):
@@ -568,13 +572,22 @@ class FindReads(Visitor):
         if self.active and self.candidate_set is not None:
             # remove the loop variable as a variable of interest
             self.candidate_set.discard(o.variable)
+        # The loop body may not be executed at all: writes in the body do not
+        # clear candidates for reads after the loop
+        candidate_set = self.candidate_set.copy() if self.candidate_set is not None else None
+        had_variable = o.variable in self.reads
         self.visit(o.children, **kwargs)
-        if active:
+        if candidate_set is not None:
+            self.candidate_set |= candidate_set
+        if active and not had_variable:
             self.reads.discard(o.variable)
 
     def visit_WhileLoop(self, o, **kwargs):
         self._register_reads(self._symbols_from_expr(o.condition))
+        candidate_set = self.candidate_set.copy() if self.candidate_set is not None else None
         self.visit(o.children, **kwargs)
+        if candidate_set is not None:
+            self.candidate_set |= candidate_set
 
 
 class FindWrites(Visitor):
